@@ -7,6 +7,11 @@ import scipy.sparse as sp
 from .. import coqrun as cq
 from .. import gen
 
+def _nn(v):
+    """NaN counts as 'exceeds every bound' in the oracle comparisons"""
+    return np.inf if np.isnan(v) else v
+
+
 TECHNIQUE = 'Coq proof of the direct-interpolation equations (any field, every splitting) + bit-exact kernel/model correspondence + defining-equation oracle'
 LEVEL_TEXT = ('Kernel-checked theorems (Props/C11.v) about the Gallina model of rs_direct_interpolation_pass2 over any '
               'field, for every matrix, strength pattern and C/F splitting: a coarse point gets an identity row, a fine '
@@ -254,7 +259,7 @@ def oracle(ctx, interp, Ad, A, theta, norm, spl, sym, rowsum0, base):
             if any(Rd[r, j] != 0 for j in range(n) if spl[j] == 0 and j not in Fpat):
                 ctx.fail('local_air/outside-pattern', 'row %d has weights outside the strong F neighbourhood' % r, case)
                 break
-            if Fpat and np.abs(RA[r, Fpat]).max() > 1e-8 * scale and np.linalg.cond(Ad[np.ix_(Fpat, Fpat)]) < 1e8:
+            if Fpat and _nn(np.abs(RA[r, Fpat]).max()) > 1e-8 * scale and np.linalg.cond(Ad[np.ix_(Fpat, Fpat)]) < 1e8:
                 ctx.fail('local_air/RA-not-zero', 'row %d: max |(RA)[i,j]| on the F pattern = %.3g' % (r, np.abs(RA[r, Fpat]).max()), case)
                 break
     ctx.case(('oracle', repr(base['dense']), repr(base['splitting']), theta, norm), True)
